@@ -307,6 +307,25 @@ Proof.
   destruct (Z.eqb_spec la lb); cbn; split; congruence.
 Qed.
 
+Theorem validator_matmul_0d_spec_proof :
+  forall nda ndb : Z,
+    (nda <> 0 /\ ndb <> 0 -> v_matmul_0d_check nda ndb = Ok VNone) /\
+    (nda = 0 \/ ndb = 0 -> v_matmul_0d_check nda ndb = Raise ValueError).
+Proof.
+  intros nda ndb. unfold v_matmul_0d_check, sv_matmul_0d_check. cbn.
+  destruct (Z.eqb_spec nda 0); cbn; [split; [intros [? ?]; contradiction|reflexivity]|].
+  destruct (Z.eqb_spec ndb 0); cbn; split; intros H; try reflexivity; try (destruct H; contradiction).
+Qed.
+
+Theorem validator_einsum_out_count_spec_proof :
+  forall cnt : Z,
+    (cnt = 1 -> v_einsum_out_count_check cnt = Ok VNone) /\
+    (cnt <> 1 -> v_einsum_out_count_check cnt = Raise ValueError).
+Proof.
+  intros cnt. unfold v_einsum_out_count_check, sv_einsum_out_count_check. cbn.
+  destruct (Z.eqb_spec cnt 1); cbn; split; congruence.
+Qed.
+
 (* the zero-size shortcut looks at (-1, N2) and (N2, -1): it fires iff the CONTRACTED extent is 0
    and says nothing about the free extents of either operand *)
 Theorem tensordot_shortcut_spec_proof :
@@ -555,6 +574,9 @@ Proof.
     apply negb_true_iff in H. exact H.
   - rewrite (proj1 (validator_caxes_spec_proof ndim ca) H). reflexivity.
   - apply Z.eqb_eq in H. rewrite (proj1 (validator_dot_1d_spec_proof la lb) H). reflexivity.
+  - apply negb_true_iff, orb_false_iff in H. destruct H as [H1 H2]. apply Z.eqb_neq in H1, H2.
+    rewrite (proj1 (validator_matmul_0d_spec_proof nda ndb) (conj H1 H2)). reflexivity.
+  - apply Z.eqb_eq in H. rewrite (proj1 (validator_einsum_out_count_spec_proof cnt) H). reflexivity.
 Qed.
 
 (* invalid arguments: a clean class, before anything else (see rejection_precedes_kernels) *)
@@ -577,6 +599,9 @@ Proof.
     apply negb_false_iff in H. exact H.
   - rewrite (proj2 (validator_caxes_spec_proof ndim ca) H). eexists; split; reflexivity.
   - apply Z.eqb_neq in H. rewrite (proj2 (validator_dot_1d_spec_proof la lb) H). eexists; split; reflexivity.
+  - apply negb_false_iff, orb_true_iff in H. rewrite !Z.eqb_eq in H.
+    rewrite (proj2 (validator_matmul_0d_spec_proof nda ndb) H). eexists; split; reflexivity.
+  - apply Z.eqb_neq in H. rewrite (proj2 (validator_einsum_out_count_spec_proof cnt) H). eexists; split; reflexivity.
 Qed.
 
 (* ---------------------------------------------------------------- non-vacuity *)
